@@ -1,12 +1,17 @@
 package main
 
 import (
+	"bytes"
+	"context"
+	"errors"
 	"io/ioutil"
 	"os"
 	"strings"
+	"time"
 
 	"github.com/tikv/client-go/v2/testutils"
 	"github.com/tikv/client-go/v2/tikv"
+	"github.com/tikv/client-go/v2/tikvrpc"
 
 	"github.com/kubewharf/kubebrain/pkg/metrics"
 	promm "github.com/kubewharf/kubebrain/pkg/metrics/prometheus"
@@ -79,7 +84,13 @@ func newEngineUnder(opts map[string]string, under func(storage.KvStorage) storag
 			}
 		}
 		testutils.BootstrapWithMultiRegions(cluster, splits...)
-		st, err := tikv.NewTestTiKVStore(rpcClient, pdClient, nil, nil, 0)
+		var wrap func(tikv.Client) tikv.Client
+		if opts["undet"] == "1" {
+			// the answer of every commit RPC whose primary key carries the marker is lost AFTER the mock cluster has
+			// executed it: client-go then reports "execution result undetermined" (once its back-off is exhausted)
+			wrap = func(c tikv.Client) tikv.Client { return &lostCommitClient{Client: c, marker: []byte("undet")} }
+		}
+		st, err := tikv.NewTestTiKVStore(rpcClient, pdClient, wrap, nil, 0)
 		if err != nil {
 			panic(err)
 		}
@@ -94,4 +105,27 @@ func newEngineUnder(opts map[string]string, under func(storage.KvStorage) storag
 		kv = imetrics.NewKvStorage(kv, getMetrics())
 	}
 	return kv
+}
+
+
+// lostCommitClient sits between client-go and the mock TiKV cluster.
+type lostCommitClient struct {
+	tikv.Client
+	marker []byte
+}
+
+func (c *lostCommitClient) SendRequest(ctx context.Context, addr string, req *tikvrpc.Request, timeout time.Duration) (*tikvrpc.Response, error) {
+	if req.Type == tikvrpc.CmdCommit {
+		hit := false
+		for _, k := range req.Commit().Keys {
+			if bytes.Contains(k, c.marker) {
+				hit = true
+			}
+		}
+		if hit {
+			_, _ = c.Client.SendRequest(ctx, addr, req, timeout)
+			return nil, errors.New("injected: connection lost after the commit was sent")
+		}
+	}
+	return c.Client.SendRequest(ctx, addr, req, timeout)
 }
